@@ -436,6 +436,16 @@ func c18(r *report.Run) {
 					whole := c18Run(xs, m, henv.Make(v), vars, &extra)
 					lo := c18Run("("+xs+")[:"+i+"]", m, henv.Make(v), vars, &extra)
 					hi := c18Run("("+xs+")["+i+":]", m, henv.Make(v), vars, &extra)
+					if !strings.ContainsAny(xs, " (") && !strings.Contains(xs, "..") {
+						// a postfix chain: the slice continues the chain without parentheses, and must mean the same
+						for _, pair := range [][2]string{{"(" + xs + ")[:" + i + "]", xs + "[:" + i + "]"}, {"(" + xs + ")[" + i + ":]", xs + "[" + i + ":]"}, {"(" + xs + ")[:]", xs + "[:]"}, {"(" + xs + ")[" + i + ":][:1]", xs + "[" + i + ":][:1]"}} {
+							a := c18Run(pair[0], m, henv.Make(v), vars, &extra)
+							b := c18Run(pair[1], m, henv.Make(v), vars, &extra)
+							if a.fail != b.fail || a.norm != b.norm {
+								report1(order, "slice-chain=parenthesised", m.String(), "value", pair[0], pair[1], v, fmt.Sprintf("%s (failed=%v) != %s (failed=%v)", a.norm, a.fail, b.norm, b.fail), xs, i)
+							}
+						}
+					}
 					if whole.fail {
 						continue
 					}
